@@ -21,16 +21,19 @@ static void crorav(Tape& t, Ctx& c)
 }
 static void q1tbnp(Tape& t, Ctx& c)
 {
-  ElemCfg e = {"Q1TBNP", 1, false, false, false, 3, 2, 2, 3, 2};
+  ElemCfg e = {"Q1TBNP", 1, false, false, false, 3, 2, 2, 3, 2, {nullptr, nullptr, nullptr, nullptr, nullptr}}, e3 = e;
+  // known finding: the hexahedral evaluator's gradients miss the mixed terms (findings/C15.md #1)
+  e3.excl[3] = "c15-q1tbnp3d-grad";
   switch(t.pick({1, 1}))
   {
   case 0: Check<Space::Q1TBNP::Element<Trf<H2>>, true, false, true>::run(t, c, e); break;
-  default: Check<Space::Q1TBNP::Element<Trf<H3>>, true, false, true>::run(t, c, e); break;
+  default: Check<Space::Q1TBNP::Element<Trf<H3>>, true, false, true>::run(t, c, e3); break;
   }
 }
 static void cdssy(Tape& t, Ctx& c)
 {
-  ElemCfg e = {"CaiDouSanSheYe", 1, false, true, false, 3, 2, 2, 3, 2};
+  // known finding: bubble basis function (2.25 xy) and bubble functional (1/4 int f xy) are not normalised against each other (findings/C15.md #2)
+  ElemCfg e = {"CaiDouSanSheYe", 1, false, true, false, 3, 2, 2, 3, 2, {nullptr, "c15-cdssy-bubble-dual", nullptr, nullptr, nullptr}};
   Check<Space::CaiDouSanSheYe::Element<Trf<H2>>, true, false, true>::run(t, c, e);
 }
 C15_MAIN({"crorav", crorav, 96, 8, 30000}, {"q1tbnp", q1tbnp, 96, 8, 30000}, {"cdssy", cdssy, 96, 8, 30000})
